@@ -192,6 +192,8 @@ def run(ctx):
     ctx.rule("R05.i", "in every @contextmanager, each write to object state (attribute/subscript store) made after the yield on the normal way out is also made on the way out of a failing body", floor=5)
     ctx.rule("R05.g", "a self-resetting Event is reset even when a watcher raises during the assignment: in Event.__set__ the reset is passed on the exceptional exit of super().__set__", floor=1)
     ctx.rule("R05.h", "a failing flush leaves no events behind: every exceptional exit of the flush passes a reset of both queues", floor=1)
+    ctx.rule("R05.p", "no state survives a raising function in the callbacks depends builds: a closure variable marked before the user's function is called is cleared in a finally, not by a "
+                      "plain statement after the call", floor=1)
     ctx.rule("R05.o", "everything besides notifying comes before the first watcher runs, also in the reference resolver: in Resolver._resolve_value no `_update_refs` call is reachable after "
                       "`self.value = ...` (whose watchers may raise)", floor=1)
     ctx.rule("R05.v", "setter model, raising watcher: Parameter.__set__ interpreted with two watchers, no batch open, the first watcher raising: the exception leaves the setter and no watcher is "
@@ -344,6 +346,7 @@ def run(ctx):
     setter_model.report(ctx, "C05", "R05.s")
     setter_model.watcher_raises_model(ctx, "R05.v")
     resolver_repoints_before_publishing(ctx, "R05.o")
+    closure_guards_are_released(ctx, "R05.p")
     from checks import ctor_model
     ctor_model.report(ctx, "C05", "R05.k")
     from checks import namespace_model
@@ -583,3 +586,53 @@ def resolver_repoints_before_publishing(ctx, rule):
                  key=f.qualname + "::repoint-after-publish", input="a recursive resolve over a chain of two references; the inner link is re-pointed while a downstream .rx.watch callback raises")
     else:
         ctx.ok(rule, f, pubs[0], "the resolver's own watchers are re-pointed before the value is published (no _update_refs call is reachable after `self.value = ...`)")
+
+
+_GUARD_EXAMPLE = '''
+def cb(*events):
+    if active:
+        return
+    active.append(events)
+    result = func(*args)
+    active.pop()
+    return result
+'''
+
+
+def _unprotected_guards(fnode):
+    """Closure state switched on before a call and switched off after it, outside any try/finally."""
+    params = {a.arg for a in fnode.args.args + fnode.args.kwonlyargs} | ({fnode.args.vararg.arg} if fnode.args.vararg else set()) | ({fnode.args.kwarg.arg} if fnode.args.kwarg else set())
+    local = {t.id for st in ast.walk(fnode) if isinstance(st, ast.Assign) for t in st.targets if isinstance(t, ast.Name)}
+    out = []
+    for i, st in enumerate(fnode.body):
+        if isinstance(st, ast.Expr) and isinstance(st.value, ast.Call) and isinstance(st.value.func, ast.Attribute) and st.value.func.attr in ("append", "add") \
+                and isinstance(st.value.func.value, ast.Name) and st.value.func.value.id not in params | local:
+            name = st.value.func.value.id
+            rest = fnode.body[i + 1:]
+            undo_plain = [s for s in rest if isinstance(s, ast.Expr) and isinstance(s.value, ast.Call) and isinstance(s.value.func, ast.Attribute)
+                          and s.value.func.attr in ("pop", "remove", "discard", "clear") and norm(s.value.func.value) == name]
+            calls_between = any(isinstance(c, ast.Call) for s in rest[:rest.index(undo_plain[0])] for c in ast.walk(s)) if undo_plain else False
+            if undo_plain and calls_between:
+                out.append((st, name))
+    return out
+
+
+def closure_guards_are_released(ctx, rule):
+    """The callbacks that param.depends builds for functions (the callbacks behind bind(..., watch=True) and .rx.watch) keep
+    no state that a raising function leaves switched on: a closure variable marked before the user's function is called
+    (`active.append(...)`) is cleared in a `finally`, never by a plain statement after the call -- otherwise one exception
+    makes the shared callback return at once for ever after.  (Zero instances on the pinned tree; embedded example.)"""
+    ex = ast.parse(_GUARD_EXAMPLE).body[0]
+    if len(_unprotected_guards(ex)) != 1:
+        raise AnalysisError("%s: the matcher no longer recognises the embedded example of an unprotected guard" % rule)
+    f = ctx.repo.func("param.depends.depends")
+    nested = [n for n in ast.walk(f.node) if isinstance(n, (ast.FunctionDef, ast.AsyncFunctionDef)) and n is not f.node]
+    ctx.require(len(nested) >= 3, "fewer than 3 nested callbacks in param.depends.depends (%d)" % len(nested))
+    bad = [(n, g) for n in nested for g in _unprotected_guards(n)]
+    if bad:
+        n, (st, name) = bad[0]
+        ctx.fail(rule, f, st, "the callback `%s` of depends marks the closure variable `%s` before it calls the user's function and clears it by a plain statement afterwards: when the function "
+                              "raises the mark stays, and the shared callback returns at once on every later dispatch -- the watcher is never called again" % (n.name, name),
+                 key=f.qualname + "::guard-not-released", input="bind(f, p.param.x, watch=True) where f raises once: later assignments to p.x never call f again")
+    else:
+        ctx.ok(rule, f, f.node, "none of the %d callbacks built by depends keeps a guard that a raising function would leave on (matcher checked on an embedded example)" % len(nested))
